@@ -187,6 +187,13 @@ func checkStateGate(c *Ctx, li *lockInfo, rule, pkg, label, method string, sinks
 		if id == "(*"+pkg+".WorkSpaceMap).Delete" {
 			isSink = true
 		}
+		// the disuse effect written out in place (disuseWorkSpace inlined): the space leaves the configured list
+		if st, isSt := in.(*ssa.Store); isSt {
+			if t, fld, _, ok := fieldOfAddr(st.Addr); ok && ((t == pkg+".WorkSpace" && fld == "using") || (t == pkg+".SpaceKeeper" && fld == "workSpaceList")) {
+				isSink = true
+				id = "store to " + shortType(t) + "." + fld
+			}
+		}
 		if !isSink {
 			return
 		}
@@ -333,6 +340,10 @@ func checkC11(c *Ctx) Meta {
 		adds := callsIn(f, "(*"+pkgCapacity+".SpaceKeeper).addWorkSpaceToIndex")
 		if len(adds) == 0 {
 			c.Bad("C11-LOAD", "generateInitialIndex:anchor", c.Pos(f.Pos()), "reason=anchor-missing: no addWorkSpaceToIndex call")
+		} else {
+			// the scan loop may sit in a phase helper the reference tree does not have: the load checks
+			// are evaluated in the function that holds the indexing call
+			f = hostFn(f, adds[0])
 		}
 		mustCut := func(key, what string, cut func(from, to *ssa.BasicBlock) bool, found bool) {
 			if !found {
@@ -839,7 +850,7 @@ func checkWhoMayDestroy(c *Ctx, ruleID string) {
 			argHas: func(fn *ssa.Function, s *slice) bool { return s.hasField(pkgMassDBV1+".MassDBV1", "filePathA") }},
 		"poc/engine/massdb/massdb.v1.createMapFile$1|os.Remove": {why: "cleanup of the file just created",
 			argHas: func(fn *ssa.Function, s *slice) bool {
-				return s.hasParam(outermost(fn), "filePath") && createdInSameFunc(outermost(fn))
+				return s.hasParam(lexicalOutermost(fn), "filePath") && createdInSameFunc(lexicalOutermost(fn))
 			}},
 		"poc/engine/spacekeeper/capacity.upgradeMassDBFile$1|os.Rename": {why: "legacy name upgrade (rename, content untouched)",
 			argHas: func(fn *ssa.Function, s *slice) bool { return true }},
@@ -857,7 +868,7 @@ func checkWhoMayDestroy(c *Ctx, ruleID string) {
 		if strings.HasPrefix(pkgOf(fn), repoMod+"/api/proto") {
 			continue
 		}
-		allInstrs(fn, func(in ssa.Instruction) {
+		allInstrsShallow(fn, func(in ssa.Instruction) {
 			op, ok := isDestructiveFileOp(in)
 			if !ok {
 				return
@@ -944,7 +955,7 @@ func checkCheckpointCodec(c *Ctx, rule string) {
 		if pkgOf(fn) != pkgMassDBV1 {
 			continue
 		}
-		for _, a := range fieldAccesses(fn) {
+		for _, a := range fieldAccessesShallow(fn) {
 			if a.Kind == "store" && a.Type == tHashMap && a.Field == "checkpoint" {
 				check(fn, a.In.(*ssa.Store).Val, "the checkpoint loaded in "+fn.Name(), a.In.Pos())
 			}
